@@ -35,6 +35,7 @@ from pathlib import Path
 
 ROOT = Path(__file__).resolve().parent.parent
 PY = "/venv/bin/python"
+REPO = os.environ.get("VERIF_REPO", "/repo")  # scratch worktree for mutant self-tests; default: the real tree
 MAX_SIGS = 400_000
 MAX_VIOL_PER_MECH = 5
 
@@ -246,13 +247,18 @@ def known_findings(prop):
     if not p.exists():
         return {}
     data = json.loads(p.read_text())
-    return {e["mechanism"]: e for e in data.get("findings", []) if e["property"] == prop and e.get("status") == "known"}
+    entries = list(data.get("findings", []))
+    extra = os.environ.get("VERIF_EXTRA_FINDINGS")  # authoring aid only: proposed entries, never used by MANIFEST commands
+    if extra and Path(extra).exists():
+        x = json.loads(Path(extra).read_text())
+        entries += x if isinstance(x, list) else x.get("findings", [])
+    return {e["mechanism"]: e for e in entries if e["property"] == prop and e.get("status") == "known"}
 
 
 def env_for_worker():
     env = dict(os.environ)
     env["PYTHONHASHSEED"] = "0"
-    env["PYTHONPATH"] = f"{ROOT}:/repo" + (":" + env["PYTHONPATH"] if env.get("PYTHONPATH") else "")
+    env["PYTHONPATH"] = f"{ROOT}:{REPO}" + (":" + env["PYTHONPATH"] if env.get("PYTHONPATH") else "")
     env["PYTHONDONTWRITEBYTECODE"] = "1"
     env["MITMPROXY_VERIF"] = "1"
     env.setdefault("HOME", "/root")
@@ -288,7 +294,7 @@ def main_check(prop, tier, seed, replay=None, workers=None):
         if only_case is not None:
             cmd.append(str(only_case))
         try:
-            p = subprocess.run(cmd, env=env, cwd="/repo", timeout=hard_timeout, capture_output=True, text=True)
+            p = subprocess.run(cmd, env=env, cwd=REPO, timeout=hard_timeout, capture_output=True, text=True)
             if out.exists():
                 r = json.loads(out.read_text())
                 r["stderr_tail"] = p.stderr[-800:]
